@@ -19,7 +19,7 @@ LEVEL = "exploration"
 RULE = (
     "one case per input text run through Program.assemble_string_with_emitter under the T-steps monitor (LINE+PY_START+JUMP events inside "
     "a816): every sequence of <= 2 (quick) / <= 3 (thorough) tokens over a 72-token alphabet joined with '', ' ' and newline, random "
-    "sequences of 3-30 tokens, the texts of command-line definitions (-D NAME=<text>: every sequence of <= 2 tokens, random longer ones) through eval_expression_str, operand and directive expressions drawn from a grammar (unary/binary operators over small, large and negative values), inputs with .include/.incbin/.table/.include_ips of missing, existing, self-including and mutually including (2- and 3-cycles) files run through the file "
+    "sequences of 3-30 tokens, the texts of command-line definitions (-D NAME=<text>: every sequence of <= 2 tokens, random longer ones) through eval_expression_str, .map lines with boundary numbers in every attribute followed by code that uses the mapping, operand and directive expressions drawn from a grammar (unary/binary operators over small, large and negative values), inputs with .include/.incbin/.table/.include_ips of missing, existing, self-including and mutually including (2- and 3-cycles) files run through the file "
     "front end under an absolute and a relative source path, and every truncation (each character position), token deletion and duplication of valid generated programs; "
     "violated when the step count exceeds B = 200000 + 20000*len + sum over .for expansions of trips*(2000+200*len); distinct by hash of the "
     "text; non-trivial = the monitor counted at least one step for it"
@@ -209,6 +209,7 @@ def plan(tier: str, seed: int) -> list[dict]:
     shards += [{"kind": "recursion", "seed": seed * 100_000 + i, "n": 40 if tier == "quick" else 200} for i in range(4)]
     shards += [{"kind": "files", "seed": seed * 100_000 + i, "n": 60 if tier == "quick" else 600} for i in range(4)]
     shards += [{"kind": "values", "part": i, "of": 4, "n": 200 if tier == "quick" else 3000} for i in range(4)]
+    shards += [{"kind": "maps", "seed": seed * 100_000 + i, "n": 150 if tier == "quick" else 1500} for i in range(4)]
     shards += [{"kind": "expr", "seed": seed * 100_000 + i, "n": 400 if tier == "quick" else 4000} for i in range(4)]
     return shards
 
@@ -314,6 +315,29 @@ def run_shard(shard: dict) -> Res:
             for _ in range(shard["n"]):
                 run_text(res, " ".join(rng.choice(ALPHABET) for _ in range(rng.randint(3, 8))), "define-value", "define_value")
             res.sample({"family": "define-value", "text": "0x10 + foo"})
+        elif shard["kind"] == "maps":
+            # .map lines with boundary numbers in every attribute (zero / one / odd masks, empty and reversed ranges, huge values), followed by
+            # code that uses the mapping: whatever the numbers are, the line is expanded and the program assembled or refused in bounded work
+            rng = random.Random(shard["seed"] ^ 0x3A9)
+            nums = [0, 1, 2, 3, 0x7F, 0x80, 0xFF, 0x100, 0x7FFF, 0x8000, 0xFFFF, 0x10000, 0x10001, 0xFFFFFF, 0x1000000, 1 << 32, 1 << 64]
+            for i in range(shard["n"]):
+                lines = []
+                for ident in range(1, rng.randint(2, 4)):
+                    pick = lambda usual: rng.choice(usual) if rng.random() < 0.6 else rng.choice(nums)  # noqa: E731
+                    parts = [f"bank_range={pick([0, 0x40, 0x7e]):#x}, {pick([0x3f, 0x6f, 0x7f]):#x}", f"addr_range={pick([0, 0x8000]):#x}, {pick([0xffff]):#x}",
+                             f"mask={pick([0x8000, 0x10000]):#x}"]
+                    if rng.random() < 0.4:
+                        parts.append(f"writable={pick([0, 1])}")
+                    if rng.random() < 0.4:
+                        parts.append(f"mirror_bank_range={pick([0x80, 0xc0]):#x}, {pick([0xbf, 0xef, 0xff]):#x}")
+                    rng.shuffle(parts)
+                    lines.append(f".map identifier={ident} " + " ".join(parts))
+                body = rng.choice(["*=0x008000\nlda.l 0x7e0010\nsta.l 0x7e0012\nrts\n", "*=0x7e2000\n.db 1, 2\nhere:\n.dl here\n", "*=0x00fffe\n.dl 1, 2, 3\nafter:\n.dl after\n",
+                                   "*=0x408000\nloop:\nnop\nbra loop\n@=0x7e0000\n.dw 1\n", "*=0x3ffffe\n.ascii 'abcdefgh'\n"])
+                text = "\n".join(lines) + "\n" + body
+                run_text(res, text, "maps")
+                if i == 0:
+                    res.sample({"family": "maps", "text": text})
         elif shard["kind"] == "expr":
             rng = random.Random(shard["seed"] ^ 0xE5)
             for i in range(shard["n"]):
